@@ -221,7 +221,7 @@ RunOutput run_hist(const Plan& plan, const RunOpts& o)
                 }
                 in.seam_applications_since_init = rec.seamA_since_init;
                 in.restarts_in_call = rec.restarts;
-                in.computes_since_init = rec.computes_since_init;
+                in.computes_since_init = rec.compute_attempts_since_init;
                 in.eps = alpha->world->eps;
                 check_consistency(in, (int) i, out.viol);
                 // pairing: the i-th value belongs to the i-th column
